@@ -323,6 +323,17 @@ class Exec(Ops):
       if self.spec_mode and n.id in (getattr(self.spec, 'locals', None) or {}):
         # a contract clause mentions a local that is not bound on this path: unconstrained
         return self.fresh(self.spec.locals[n.id], n.id)
+      # a helper defined at module level in the same file and not under contract: execute its real body in place
+      # (e.g. a helper extracted by a refactoring); only in code mode, only plain functions
+      if not self.spec_mode and getattr(self.spec, 'file', None):
+        try:
+          from .extract import find_function
+          fnode, _, _ = find_function(self.spec.file, n.id)
+          if isinstance(fnode, ast.FunctionDef) and not fnode.decorator_list:
+            self.used_externals.add(f'inlined: {self.spec.file}::{n.id}')
+            return Closure(fnode, Env(None), n.id)
+        except Exception:
+          pass
       raise OutsideSubset(f'unbound name {n.id!r} (line {getattr(n, "lineno", "?")}): not a local, not in the sidecar bindings')
 
   def e_Attribute(self, n, env):
